@@ -122,15 +122,30 @@ Definition t_bfu ws w s e nv tr :=
 Definition t_bfui ws w s e v tr :=
   run_tab ws (fun env => one (bitfield_update_int (eval env w) s e v tr)).
 
-Definition t_bfus ws w (ups : list ((option Z * option Z) * src)) tr :=
+(* a new value: a source wire or a Python int *)
+Inductive vsrc := VS (s : src) | VI (v : Z).
+Definition evalv (env : list bits) (x : vsrc) : newval :=
+  match x with VS s => NVw (eval env s) | VI v => NVi v end.
+
+Definition t_bfus ws w (ups : list ((option Z * option Z) * vsrc)) tr :=
   run_tab ws (fun env =>
-    one (bitfield_update_set (eval env w) (map (fun u => (fst u, eval env (snd u))) ups) tr)).
+    one (bitfield_update_set_nv (eval env w) (map (fun u => (fst u, evalv env (snd u))) ups) tr)).
 
 Definition t_mbp ws w (pat : string) :=
   (map (fun c => Z.of_nat (nat_of_ascii c))
        (dedup (filter is_field (strip (list_ascii_of_string pat)))),
    run_tab ws (fun env =>
      match match_bitpattern (eval env w) pat with
+     | Some (m, fs) => Some ([m] :: map snd fs)
+     | None => None
+     end)).
+
+(* with a field_map (given as its keys in dict order, mapped names irrelevant for the values) *)
+Definition t_mbp_fm ws w (pat : string) (keys : list ascii) :=
+  (map (fun c => Z.of_nat (nat_of_ascii c))
+       (dedup (filter is_field (strip (list_ascii_of_string pat)))),
+   run_tab ws (fun env =>
+     match match_bitpattern_fm (eval env w) pat (map (fun k => (k, String k EmptyString)) keys) with
      | Some (m, fs) => Some ([m] :: map snd fs)
      | None => None
      end)).
